@@ -561,7 +561,7 @@ func c02Reject(c *Ctx) {
 					return x.IsField("Name") && y.IsConst(`""`) && op == token.NEQ
 				})
 			}) && r.has(func(a an.PathAtom) bool {
-				return cmpAtom(a, func(x, y *an.Expr, op token.Token) bool { return isLenOf(x, "Names") && isK(y, 0) && op == token.GTR })
+				return cmpAtom(a, func(x, y *an.Expr, op token.Token) bool { return isLenOf(x, "Names") && isK(y, 0) && op == token.NEQ })
 			})
 		}},
 		{"neither-name-nor-names", "parseInterfaces", "exactly one of name/names", func(r rejection) bool {
@@ -570,7 +570,7 @@ func c02Reject(c *Ctx) {
 					return x.IsField("Name") && y.IsConst(`""`) && op == token.EQL
 				})
 			}) && r.has(func(a an.PathAtom) bool {
-				return cmpAtom(a, func(x, y *an.Expr, op token.Token) bool { return isLenOf(x, "Names") && isK(y, 0) && op == token.LEQ })
+				return cmpAtom(a, func(x, y *an.Expr, op token.Token) bool { return isLenOf(x, "Names") && isK(y, 0) && op == token.EQL })
 			})
 		}},
 		{"monitor-and-advertise", "parseInterface", "monitor and advertise not both", func(r rejection) bool {
